@@ -22,7 +22,7 @@ def types():
 
 
 # block types whose exploration explodes on a fully symbolic version: split by version class
-def jobs_for(entry, tier, seed, budget_quick=8, budget_thorough=120, only=None, extra=None):
+def jobs_for(entry, tier, seed, budget_quick=12, budget_thorough=120, only=None, extra=None):
     ts = types()
     J = []
     for i, t in enumerate(ts):
